@@ -17,7 +17,7 @@ ASSUMPTIONS = ['the clock is the injected fault; in active-object runs the clien
 PROBES = ['equal_consecutive_timestamps']
 PLAN = {
   'quick': {'strata': {'fine-clock': 1500, 'faulty-clock': 4000, 'shared-writer': 1500}, 'wall_s': 300, 'chunk': 100, 'min_conclusive': 1000},
-  'thorough': {'strata': {'fine-clock': 30000, 'faulty-clock': 100000, 'shared-writer': 40000}, 'wall_s': 900, 'chunk': 250, 'min_conclusive': 10000},
+  'thorough': {'strata': {'fine-clock': 30000, 'faulty-clock': 100000, 'shared-writer': 40000}, 'wall_s': 900, 'chunk': 250, 'min_conclusive': 1000},
 }
 ORACLES = [co.check_live]
 
